@@ -4,7 +4,7 @@ import ast
 from ..core import Mutant, norm
 from .. import httpparse as hp
 from ..httpx import HT, HC
-from ..astutil import method_call, unparse, parent, in_subtree
+from ..astutil import method_call, unparse, parent, in_subtree, oriented
 from ..index import dotted, walk_local
 
 EXPLANATION = ("C15: the event line parser is called with (CRLF, LF, CR) and inherits the position-based terminator "
@@ -67,9 +67,9 @@ def check(run):
     partsv = sorted(joined)[0] if joined else None
     arms = {}
     for n in walk_local(pe.node):
-        if isinstance(n, ast.Compare) and dotted(n.left) == fieldv and len(n.ops) == 1 and isinstance(n.ops[0], ast.Eq) \
-                and isinstance(n.comparators[0], ast.Constant):
-            arms[n.comparators[0].value] = parent(n)
+        o = oriented(n, lambda e: dotted(e) == fieldv) if isinstance(n, ast.Compare) else None
+        if o and o[1] == "Eq" and isinstance(o[2], ast.Constant):
+            arms[o[2].value] = parent(n)
     run.ob("C15.R2", "%s:field-table" % pe.fq, set(arms) == FIELDS, run.site(pe),
            "" if set(arms) == FIELDS else "field dispatch handles %s, the event stream format defines %s" % (sorted(arms), sorted(FIELDS)))
     run.rows += len(arms)
